@@ -118,6 +118,27 @@ COMPACT = {
 }
 
 
+# the quick tier goes to depth 3 only over these (4 queries + 5 symbols per object: at least one rejected call, one
+# value-masking divisor, set_units, the held wod / held shrunk object, a clone fast path, `a[:] = v`); depth <= 2 uses
+# the full compact alphabets above; everything else is left to the thorough tier
+QUICK3 = {
+    'S3m': _CQ + ['set:sl:badT', 'imul:objm', 'units:km', 'set:0:masked', 'iadd:num'],
+    'S3': _CQ + ['set:sl:badm', 'imod:objz', 'hold:arr', 'unheld', 'set:mi:num'],
+    'S0': _CQ + ['iadd:num', 'set:all:num', 'set:sl:objm', 'iadd:objm', 'shun:arr'],
+    'S0d': _CQ + ['iadd:num', 'imul:num', 'imod:objz', 'units:km', 'q:plus1'],
+    'S3d': _CQ + ['imul:objm', 'iadd:objd', 'holdw', 'q:heldw', 'ro'],
+    'S23m': _CQ + ['set:bm:badT', 'set:sl:objm', 'imod:arrz', 'shun:arr', 'iadd:objm'],
+    'I3': _CQ + ['iand:objm', 'imod:zero', 'ifloordiv:objz', 'iadd:num', 'insd:t'],
+    'I0d': _CQ + ['iand:bool', 'ior:objm', 'iadd:num', 'imul:num', 'deld:t'],
+    'B3': _CQ + ['set:sl:bad', 'iand:objm', 'ixor:objm', 'ior:arr', 'set:0:masked'],
+    'B0': _CQ + ['iand:objm', 'ixor:objT', 'set:all:num', 'set:sl:objm', 'ro'],
+    'V2d': _CQ + ['iadd:objm', 'imul:objm', 'itruediv:objz', 'set:0:masked', 'units:km'],
+    'V0': _CQ + ['iadd:obj', 'imul:objT', 'set:all:num', 'insd:t', 'imul:num'],
+    'M2': _CQ + ['imul:obj', 'iadd:objm', 'set:0:masked', 'imul:num', 'ro'],
+    'S3ro': _CQ + ['iadd:num', 'insd:u', 'deld:t', 'units:km', 'shun:arr'],
+}
+
+
 # ------------------------------------------------------------------------------------------------ operations
 def _same(a, kind):
     """an operand of a's class and shape: obj (unmasked), objm (array/partial mask), objT (mask True), objd (+deriv)"""
